@@ -57,6 +57,13 @@ def job(j):
         tb.write(i, 0, v)
         kw = dict(fmt)
         kind = kw.pop("kind")
+        if i % 7 == 3:
+            # the cell had another format before, and its display was already read once: what counts is the format it has now
+            try:
+                tb.set_cell_formatting(i, 0, "number", decimal_places=(i // 7) % 6, show_thousands_separator=bool(i % 2))
+                _ = tb.cell(i, 0).formatted_value
+            except Exception:  # noqa: BLE001
+                pass
         try:
             if kind == "dec":
                 tb.set_cell_formatting(i, 0, "number", decimal_places=kw["places"], show_thousands_separator=kw["sep"], negative_style=NegativeNumberStyle(kw["neg"]))
